@@ -480,7 +480,26 @@ CHECKS = {'C01': {'text': 'MODELLED: Lex.lean (Lexer.__next__ and every _read_*,
                  'extension documents x strict/lax for the public extend_schema, 39 named additional_types probes, 20 named in-progress probes + a targeted '
                  'stream of recursive input objects (and every batch document) against buildP, schema-directive applications counted per element for '
                  'build_schema and the two-phase build, and the direct oracle: dump of the built schema == the declared content known by construction '
-                 '(reference coercion in Python), library error class on every labelled defect.',
+                 '(reference coercion in Python), library error class on every labelled defect. AUDIT-3 REPAIRS. (F2) Spec/SdlDeclared.lean DeclaredSpec: the '
+                 'declared content as RELATIONS per attribute (name, kind, description, fields with arguments / types / descriptions / deprecation - reason '
+                 "from @deprecated(reason:), default text 'No longer supported' -, interfaces, union members, enum values, input fields, directive locations, "
+                 "python_name, 'nothing else'; roots as DeclaresRoot = the last operation binding of the schema / extend schema blocks, else the object type "
+                 'with the default name) which mentions no build* function; declared_meets_spec (Declared doc = some c -> DeclaredSpec doc c), spec_determines '
+                 '(the relation has at most one solution: dropping a description, a location, a deprecation or reordering members falsifies it), '
+                 'declaredSpec_iff, build_exact_final_spec / build_exact_spec_independent. Defaults stay behind the shared coercion CoercesTo (= valueFromAst; '
+                 'C07 owns its theorems). (F3) Spec/SdlRules.lean: the rules behind SdlValid.declares as named clauses (Known, DeprecatedOK, ArgOK, FieldOK, '
+                 'EnumValueOK, TypeDefOK, DirDefOK); buildTypeDef_ok_iff / buildDirective_ok_iff / declares_iff_rules / sdlValid_iff_rules: the member '
+                 'builders succeed EXACTLY on them. (F4) REJECTION COMPLETENESS about build itself (Props/C11_reject_complete.lean): collect_ok_rules; '
+                 'build_rejects_dup_type / _dup_directive / _second_schema / _specified_name (= SDLError exactly, any flags / supplied types); '
+                 'build_rejects_invalid_type_def and its instances _unknown_field_type / _unknown_argument_type / _unknown_interface / _unknown_union_member / '
+                 '_unknown_input_field_type / _dup_enum_value / _bad_default; build_rejects_invalid_directive_def; build_rejects_unknown_root; '
+                 'build_rejects_ext_wrong_kind; build_rejects_ext_dup_field / _input_field / _enum_value / _union_member / _interface (member already in the '
+                 'target); build_rejects_ext_repeated_field / _enum_value / _input_field / _union_member (same member in two extension blocks or twice in '
+                 'one). For the member and root rules the class is SDLError or the RecursionError of S1b (Props/C11_reject_class.lean: '
+                 'build_member_failure_class, build_rejects_invalid_type_def_class, _invalid_directive_def_class, _unknown_root_class); for the extension '
+                 'rules the conclusion is Rejected = build fails with a library class or that RecursionError (another type may fail first in the extension '
+                 'pass). corpus/C11/reject_rules.json: one document per theorem, checked against the real builder (direct oracle + correspondence) in every '
+                 'run.',
          'note': 'Trusted: Lean kernel; generators; gen/sdl.py (ref_coerce, declared, doc_json). Lazy type thunks are by-name references (stack overflows from '
                  'eager recursion are seen by the correspondence and the S1b probe only). Schema.validate() is not part of the model (C13): documents rejected '
                  "by validation only are compared with validation disabled; the kind rules enter build_exact_valid through C13's ValidSchema. "
@@ -492,7 +511,9 @@ CHECKS = {'C01': {'text': 'MODELLED: Lex.lean (Lexer.__next__ and every _read_*,
                  'finding-H4-defaulted-backref): the statement that is safe to read against the code is build_exact_defaults_off_cycles. Only exercised by the '
                  'correspondence / oracle: the APPLICATION of schema_directives (SchemaDirective visitors), Schema objects assembled in Python passed to '
                  'extend_schema, nodes lists. no_other_branch_partial (vacuous) and build_exact_partial are kept for name stability and superseded by '
-                 'no_other_branch / build_exact_final. Known findings S8, S1b, S10, C11/2, C11/3, C11/7, C11/A1 (new), C11/H4-1 (hunt4).',
+                 "no_other_branch / build_exact_final. Known findings S8, S1b, S10, C11/2, C11/3, C11/7, C11/A1 (new), C11/H4-1 (hunt4). After audit 3: 'a "
+                 "root operation type must be an object type' is not a builder rule (Schema.validate, C13) and has no C11 theorem; the exact error class of "
+                 "the extension rules and CoercesTo against C07's declarative coercion remain open.",
          'technique': "Lean 4 proof over the builder model (exactness from the specification's rules, permutation, rejection classes, public extend_schema "
                       'strict/lax) + schema-dump correspondence + declared-content and labelled-defect oracles'},
  'C12': {'text': "THREE Lean models of ASTSchemaPrinter, all compared with the real printer's exact text on every run. (a) SdlPrint.printSchema / printSchemaX "
